@@ -104,7 +104,7 @@ Definition action_eqb (a b : action) : bool :=
   end.
 
 (* kind of subshell *)
-Inductive kind := KParen | KCmdSubst | KPipeFirst | KPipeLast | KAsync.
+Inductive kind := KParen | KCmdSubst | KPipeFirst | KPipeLast | KAsync | KPipeMiddle.
 
 (* One trap entry of a snapshot: condition name, user action, text of the
    command, disposition installed in the kernel (signals only; 0 for EXIT). *)
@@ -147,6 +147,7 @@ Definition rewired (k : kind) (fd : N) : bool :=
   | KParen => false
   | KCmdSubst | KPipeFirst => N.eqb fd 1
   | KPipeLast | KAsync => N.eqb fd 0
+  | KPipeMiddle => N.eqb fd 0 || N.eqb fd 1
   end.
 
 Definition user_fds (k : kind) (fds : list (N * (N * bool))) : list (N * (N * bool)) :=
